@@ -7,17 +7,23 @@ as a mirror.  A RAM range has no file offset.
   LoROM : ROM banks 00-6F (primary) / 80-CF (mirror), window 8000-FFFF, 32 KiB per bank; RAM 7E-7F
   HiROM : ROM banks 40-7D (primary; 7E/7F are RAM and take precedence) / C0-FF (mirror), 64 KiB
   LoROM2: ROM banks 80-FF, window 8000-FFFF, 32 KiB per bank (the legacy "second LoROM variant")
+
+User maps add a third window kind, `half64`: 64 KiB of file per bank of which only 8000-FFFF is addressed through
+this range (the HiROM banks 00-3F); the offset is bank-relative (bank x 0x10000 + address), a run never
+crosses the end of a bank (what follows FFFF is outside the window, so that is left unspecified).
 """
 from __future__ import annotations
 
 
 class Range:
-    __slots__ = ("first", "last", "win_lo", "win_hi", "size", "ram", "mirror", "name")
+    __slots__ = ("first", "last", "win_lo", "win_hi", "size", "base", "partial", "ram", "mirror", "name")
 
-    def __init__(self, first, last, win_lo, win_hi, ram=False, mirror=False, name=""):
+    def __init__(self, first, last, win_lo, win_hi, ram=False, mirror=False, name="", stride=None):
         self.first, self.last = first, last
         self.win_lo, self.win_hi = win_lo, win_hi
-        self.size = win_hi - win_lo + 1
+        self.size = stride or (win_hi - win_lo + 1)  # file bytes per bank
+        self.partial = self.size != win_hi - win_lo + 1  # the window covers only part of each bank's file bytes
+        self.base = 0 if self.partial else win_lo  # in-bank address of the bank's first file byte
         self.ram = ram
         self.mirror = mirror
         self.name = name
@@ -56,10 +62,10 @@ class BusModel:
             raise KeyError(addr)
         if r.ram:
             return None
-        return ((addr >> 16) - r.first) * r.size + ((addr & 0xFFFF) - r.win_lo)
+        return ((addr >> 16) - r.first) * r.size + ((addr & 0xFFFF) - r.base)
 
     def logical(self, r: Range, offset: int) -> int:
-        return ((r.first + offset // r.size) << 16) | (r.win_lo + offset % r.size)
+        return ((r.first + offset // r.size) << 16) | (r.base + offset % r.size)
 
     def advance(self, addr: int, n: int) -> int:
         r = self.range_of(addr)
@@ -88,6 +94,8 @@ class BusModel:
             while self.lookup.get(last + 1) is r:
                 last += 1
             return ((last + 1) << 16) - addr
+        if r.partial:
+            return min(self.range_bytes(r) - self.physical(addr), r.win_hi + 1 - (addr & 0xFFFF))
         return self.range_bytes(r) - self.physical(addr)
 
     def rom_ranges(self) -> list[Range]:
@@ -124,15 +132,19 @@ def builtin(name: str) -> BusModel:
     return {"low": lorom, "high": hirom, "low2": lorom2}[name]()
 
 
+# window kind -> (addr_range low, addr_range high, mask = file bytes per bank) as written in a `.map`
+WINDOWS = {"hi32": (0x8000, 0xFFFF, 0x8000), "full64": (0x0000, 0xFFFF, 0x10000), "half64": (0x8000, 0xFFFF, 0x10000)}
+
+
 def usermap(specs: list[dict]) -> BusModel:
-    """specs: [{id, first, last, win: 'hi32'|'full64', ram: bool, mirror: [first,last]|None}]"""
+    """specs: [{id, first, last, win: 'hi32'|'full64'|'half64', ram: bool, mirror: [first,last]|None}]"""
     ranges = []
     for s in specs:
-        lo, hi = (0x8000, 0xFFFF) if s["win"] == "hi32" else (0x0000, 0xFFFF)
-        ranges.append(Range(s["first"], s["last"], lo, hi, ram=s.get("ram", False), name=str(s["id"])))
+        lo, hi, mask = WINDOWS[s["win"]]
+        ranges.append(Range(s["first"], s["last"], lo, hi, ram=s.get("ram", False), name=str(s["id"]), stride=mask))
         if s.get("mirror"):
             ranges.append(Range(s["mirror"][0], s["mirror"][1], lo, hi, ram=s.get("ram", False), mirror=True,
-                                name=str(s["id"]) + "_mirror"))
+                                name=str(s["id"]) + "_mirror", stride=mask))
     return BusModel(ranges)
 
 
@@ -161,4 +173,7 @@ def selftest() -> None:
                 a = m.logical(r, off)
                 assert m.physical(a) == off and m.range_of(a) is r
                 assert m.advance(a, 0) == a and m.advance(m.advance(a, 5), 7) == m.advance(a, 12)
+    h = usermap([{"id": 1, "first": 0, "last": 3, "win": "half64", "mirror": [0x80, 0x83]}])
+    assert h.physical(0x008000) == 0x8000 and h.physical(0x81FFFF) == 0x1FFFF and h.advance(0x018000, 5) == 0x018005
+    assert h.room(0x00FFFE) == 2 and h.kind(0x001234) == "rom_out" and h.range_bytes(h.ranges[0]) == 0x40000
     assert rom_to_snes(0x8000, "low") == 0x018000 and rom_to_snes(0x7FFF, "low2") == 0x80FFFF
